@@ -11,6 +11,7 @@ import (
 	"encoding/json"
 	"fmt"
 	"net/url"
+	"runtime/debug"
 	"sort"
 	"strconv"
 	"strings"
@@ -34,6 +35,7 @@ func init() {
 		Exhaustive: true,
 		Gen:        genC17,
 		Run:        runC17,
+		RunChild:   runC17Child,
 		Compare:    cmpC17,
 		Shrink:     shrinkC17,
 		Workers:    8,
@@ -50,7 +52,99 @@ func init() {
 
 // ---------------------------------------------------------------- real code
 
+// runC17: a reference inside an additionalProperties schema is followed by the reference rewriters of both
+// directions (convertRefsInV3SchemaRef / convertRefsInV2SchemaRef); after ResolveRefsIn such a reference carries its
+// resolved value, and a rewriter that enters it recurses without end on a cyclic definition (fatal stack overflow,
+// not recoverable in-process). Those documents are evaluated in a (pooled) child process, the rest in-process.
 func runC17(c hx.Case) any {
+	if d := c17_jmap(c["doc"]); d != nil && c17RefUnderAddl(d, false) && c17CyclicDefs(d) {
+		return hx.RunIsolated("C17", c, 30000)
+	}
+	return runC17Direct(c)
+}
+
+// runC17Child: the conversions are shallow; a small stack limit makes an unbounded recursion die at once
+// instead of after a gigabyte of stack.
+func runC17Child(c hx.Case) any {
+	debug.SetMaxStack(48 << 20)
+	return runC17Direct(c)
+}
+
+// c17CyclicDefs: some definition reaches itself through references
+func c17CyclicDefs(d map[string]any) bool {
+	defs := c17_jmap(d["definitions"])
+	edges := map[string][]string{}
+	var collect func(v any, out *[]string)
+	collect = func(v any, out *[]string) {
+		switch x := v.(type) {
+		case map[string]any:
+			if r, ok := x["$ref"].(string); ok && strings.HasPrefix(r, "#/definitions/") {
+				*out = append(*out, r[len("#/definitions/"):])
+			}
+			for _, y := range x {
+				collect(y, out)
+			}
+		case []any:
+			for _, y := range x {
+				collect(y, out)
+			}
+		}
+	}
+	for k, v := range defs {
+		var l []string
+		collect(v, &l)
+		edges[k] = l
+	}
+	state := map[string]int{}
+	var visit func(k string) bool
+	visit = func(k string) bool {
+		switch state[k] {
+		case 1:
+			return true
+		case 2:
+			return false
+		}
+		state[k] = 1
+		for _, n := range edges[k] {
+			if visit(n) {
+				return true
+			}
+		}
+		state[k] = 2
+		return false
+	}
+	for k := range defs {
+		if visit(k) {
+			return true
+		}
+	}
+	return false
+}
+
+func c17RefUnderAddl(v any, under bool) bool {
+	switch x := v.(type) {
+	case map[string]any:
+		if under {
+			if _, ok := x["$ref"].(string); ok {
+				return true
+			}
+		}
+		for k, y := range x {
+			if c17RefUnderAddl(y, under || k == "additionalProperties") {
+				return true
+			}
+		}
+	case []any:
+		for _, y := range x {
+			if c17RefUnderAddl(y, under) {
+				return true
+			}
+		}
+	}
+	return false
+}
+
+func runC17Direct(c hx.Case) any {
 	raw, err := json.Marshal(c["doc"])
 	if err != nil {
 		return map[string]any{"kind": "badcase"}
@@ -802,6 +896,12 @@ func cmpC17(c hx.Case, impl any, reply map[string]any) hx.Verdict {
 	spec, _ := reply["spec"].(map[string]any)
 	if im == nil || model == nil || spec == nil {
 		return hx.Verdict{IM: false, IS: im != nil && im["panic"] == nil, Detail: "missing observation"}
+	}
+	if cr, isCrash := im["crash"]; isCrash {
+		return hx.Verdict{IM: false, IS: false, Detail: "the conversion killed the process: " + trunc(fmt.Sprint(cr))}
+	}
+	if im["hang"] == true {
+		return hx.Verdict{IM: false, IS: false, Detail: "the conversion did not return within 30 s"}
 	}
 	if _, p := im["panic"]; p {
 		return hx.Verdict{IM: false, IS: false, Detail: "implementation panicked: " + fmt.Sprint(im["panic"]) + " at " + fmt.Sprint(im["site"])}
